@@ -1,13 +1,14 @@
 ----------------------------- MODULE MCScanner -----------------------------
 (* Model-checking instance of Scanner: entry i is an X.509 entry when i is even and a precertificate entry when  *)
-(* odd; the matcher selects every entry whose index is not 1 modulo 3 (so selected and rejected entries of both *)
-(* kinds occur).                                                                                                 *)
+(* odd; entry classes cycle nonfatal / clean / fatal; the matcher wants every entry whose index is not 1 modulo  *)
+(* 4; both matcher types are explored (so wanted entries that a Matcher-type matcher is never asked about occur). *)
 EXTENDS Scanner
 
 CONSTANTS Batches, NW, InitSizes
 
 MCKind(i) == IF i % 2 = 0 THEN "x509" ELSE "precert"
-MCSel(i) == i % 3 # 1
+MCClass(i) == CASE i % 3 = 0 -> "nonfatal" [] i % 3 = 1 -> "clean" [] OTHER -> "fatal"
+MCWants(i) == i % 4 # 1
 
 EffEnd(c) == IF c.end = 0 \/ c.end > c.init THEN c.init ELSE c.end
 ScanConfigs == {c \in [start : 0..MaxSize, end : 0..MaxSize, batch : Batches, nw : 1..NW, cont : BOOLEAN, init : InitSizes] :
